@@ -47,7 +47,7 @@ CHECKS = {
               "and afterwards every operation of the deleting node not newer than the purged delete is refused by will_apply and both "
               "mutators on every source - checked by TLC on the faithful model and re-checked on the real code on every edge."),
         design_ref="DESIGN.md section 7 C08",
-        note=_OPS_NOTE + " The global clause uses Cluster.tla with global time, bounded skew and the timeliness guard (exhaustive small config + simulation with real-node replay)."),
+        note=_OPS_NOTE + " The global clause uses Cluster.tla with global time, bounded skew and the timeliness guard (exhaustive small config + simulation with real-node replay). The local clauses are also decided on sets reached through merges and repairs (MC_OrswotMerge with purge on any replica at any moment, including single-source sets), and 'still refused' is probed from what the real set purged, one operation later as well."),
     "C09": dict(
         engine="tlc + h-crdt",
         technique="TLC exhaustive model checking of MC_HLC over boundary grids + edge-complete replay on the real HLCTimestamp + TLC trace validation of random runs",
@@ -129,7 +129,7 @@ CHECKS = {
               "backends in fresh keyspaces with boundary ids / timestamps / payloads, and iter_metadata, get, multi_get and the keyspace list are "
               "compared with the model's prediction; persistent backends are closed and reopened on the reopen edges (LMDB: new handle and real environment close)."),
         design_ref="DESIGN.md section 7 C17",
-        note="Value space (u64 ids, payload bytes) covered by rotating boundary values, not exhaustively. Quick tier samples every 8th edge on SQLite/LMDB."),
+        note="Value space (u64 ids, payload bytes) covered by rotating boundary values, not exhaustively. Quick tier samples every 8th edge on SQLite/LMDB. Bulk calls may list an id twice (the last version stays). LMDB environments are never closed in-process (unsafe while datacake-lmdb's background thread exits); reopen edges are judged in-process on a new handle and by a fresh process opening the files; long LMDB runs are split over child processes. Random call sequences from all four backends are validated by Trace_Storage.tla."),
     "C02": dict(
         engine="tlc + h-ec",
         technique="TLC exhaustive model checking of Keyspace.tla (actor + storage with every storage outcome) + edge-complete replay on a real KeyspaceActor over a fault-injecting MemStore",
@@ -183,7 +183,7 @@ CHECKS = {
               "behaviour is replayed step by step on real components and every node's reads (ids, timestamps, bytes) and set/storage agreement are compared "
               "with the specification's expectation."),
         design_ref="DESIGN.md section 7 C01",
-        note="Exhaustive only for small bounds; simulation samples the rest. The poller's keyspace tracker is modelled (WithTracker) and bound through real poller rounds; the distributor's aggregation loop has its own specification (Distributor.tla, see C06). The progress watcher of begin_keyspace_sync polls every 2 ms in these runs (guarded hook)."),
+        note="Exhaustive only for small bounds; simulation samples the rest. The poller's keyspace tracker is modelled (WithTracker) and bound through real poller rounds; the distributor's aggregation loop has its own specification (Distributor.tla, see C06). The progress watcher of begin_keyspace_sync polls every 2 ms in these runs (guarded hook). System level: two real DatacakeNode clusters driven through the public API at level None (peers learn through the real task distributor); all nodes must end with the same stamp, kind and bytes per document (Trace_Consistency.tla, event `final`)."),
     "C06": dict(
         engine="tlc + h-ec",
         technique="TLC exhaustive model checking of Consistency.tla + TLC trace validation of calls made through the public API of real loopback clusters with failing replicas",
@@ -201,5 +201,5 @@ CHECKS = {
               "task inside a turmoil simulation performs the schedules in simulated time against the real RpcClient/Server (fast and slow handler); "
               "Trace_RpcNet.tla validates every request's outcome (reply identity and payload, handler run count, elapsed time)."),
         design_ref="DESIGN.md section 7 C14",
-        note="Simulated network (turmoil 0.4). Quick tier runs every 40th model schedule plus 400 random ones; thorough every 6th plus 4000."),
+        note="Simulated network (turmoil 0.4). Quick tier runs every 40th model schedule plus 400 random ones; thorough every 6th plus 4000. Every other request goes through a clone of the configured client."),
 }
